@@ -28,6 +28,10 @@ def poke_floats(rng, a, cls):
     for f, x in zip(dataclasses.fields(cls), a[1]):
         if x[0] == "F" and rng.random() < 0.5:
             x = ("F", rng.choice(NONFINITE))
+        if x[0] == "T" and f.metadata.get("kafka_type") == "timedelta_i64" and rng.random() < 0.4:
+            # the whole range the reader returns (up to timedelta.max), also beyond the type's own bounds
+            x = ("T", 1000 * rng.choice([86399999913600000, 86399999950000000, 86399999999999999,
+                                         86399999913599999, -86399999913600000]))
         out.append(x)
     return ("E", out)
 
